@@ -874,16 +874,34 @@ MULTI = [
 ]
 
 
+# a definition that is refused (inside the braces of the nested form, in the flat form, for an unknown keyword), given to
+# the same API object right before a valid one: the valid one must come out with its own routes and nothing else
+REFUSED_FIRST = [
+    ('nested-bad-value', 'route 10.0.{i}.0/24 {{ next-hop 10.255.0.1 ; med x ; }}'),
+    ('nested-unknown-keyword', 'route 10.0.{i}.0/24 {{ next-hop 10.255.0.1 ; local-preference 7 ; bogus 3 ; }}'),
+    ('flat-bad-value', 'route 10.0.{i}.0/24 next-hop 10.255.0.1 community [ 1:2 bogus ]'),
+]
+
+
 def multi_cases():
-    return [dict(multi=[i, j], path=path) for path in ('api', 'config') for i in range(len(MULTI)) for j in range(len(MULTI))]
+    return ([dict(multi=[i, j], path=path) for path in ('api', 'config') for i in range(len(MULTI)) for j in range(len(MULTI))]
+            + [dict(multi=[None, j], path='api', refused=k) for k in range(len(REFUSED_FIRST)) for j in range(len(MULTI))])
 
 
 def run_multi(case, sess):
     i, j = case['multi']
-    texts = [MULTI[i][1].format(i=1), MULTI[j][1].format(i=2)]
     g = T.grammars()['route4']
     routes = []
-    text = ' ; '.join(texts)
+    if case.get('refused') is not None:
+        first = REFUSED_FIRST[case['refused']][1].format(i=1)
+        texts = [MULTI[j][1].format(i=2)]
+        text = first + ' ; ' + texts[0]
+        out = run_api(g, first)
+        if out['status'] == 'accepted':
+            return 'multi-prior-accepted', [], text   # not a refused definition (any more): nothing to judge here
+    else:
+        texts = [MULTI[i][1].format(i=1), MULTI[j][1].format(i=2)]
+        text = ' ; '.join(texts)
     if case['path'] == 'api':
         for t in texts:
             out = run_api(g, t)
@@ -907,7 +925,7 @@ def run_multi(case, sess):
             viols.append((f'encode-raises:{type(e).__name__}', f'both accepted, then generating the UPDATEs raises {_exc_text(e)} (session {s})'))
             continue
         want = []
-        for k, (name, _, spec) in zip((1, 2), (MULTI[i], MULTI[j])):
+        for k, (name, _, spec) in ([(2, MULTI[j])] if case.get('refused') is not None else zip((1, 2), (MULTI[i], MULTI[j]))):
             afi = spec['afi']
             labels, rd = spec.get('labels'), spec.get('rd')
             safi = 128 if rd is not None else 4 if labels is not None else 1
@@ -934,6 +952,8 @@ def run_multi(case, sess):
 
 def multi_signature(case, kind):
     i, j = case['multi']
+    if case.get('refused') is not None:
+        return f'{case["path"]}:after-refused:{REFUSED_FIRST[case["refused"]][0]}+{MULTI[j][0]}:{kind}'
     a, b = sorted((MULTI[i][0], MULTI[j][0]))
     return f'{case["path"]}:two-routes:{a}+{b}:{kind}'
 
